@@ -283,7 +283,8 @@ fn kv_track_with_child(child: Track, effects: Vec<Box<dyn EffectTrait>>) -> Trac
 	}
 }
 
-// @h prop=C12 tier=thorough kind=main timeout=1750
+// @h prop=C12 tier=experimental kind=main timeout=1750
+// @note out of memory in symbolic execution (a Track inside a Track's arena: recursive drop glue): never run, kept for the record
 // @bounds a parent Track holding one child Track in its arena; parent handle dropped or not, child handle dropped or not, child persistent with a live sound or not (symbolic)
 // @funcs Track::should_be_removed (recursive)
 // @catches a track being removed while a descendant track must stay (child handle kept, or child persisting until its sound finishes): looking only at the child's dropped-handle flag instead of asking the child
@@ -304,7 +305,8 @@ fn c12_parent_is_not_removed_before_its_child() {
 	std::mem::forget(parent);
 }
 
-// @h prop=C16 tier=thorough kind=main timeout=1750
+// @h prop=C16 tier=experimental kind=main timeout=1750
+// @note out of memory in symbolic execution: never run, kept for the record
 // @bounds a parent Track with one probe effect holding one child Track with one probe effect: init_effects(A) then on_change_sample_rate(B), A and B symbolic
 // @funcs Track::{init_effects,on_change_sample_rate} (recursive)
 // @catches the sample-rate change not forwarded to nested sub-tracks (their effects keep the old rate while being handed dt = 1/new rate)
